@@ -1,6 +1,7 @@
 (* C13 — Network FIFO between a pair of processes.
    Property theorems only; model in Proto/Model.v, proofs in Proto/Proofs.v. *)
 From Ergo Require Import Common.Base Proto.Model Proto.Proofs Proto.Redial Proto.RedialProofs.
+From Ergo Require Proto.RecvLock Proto.RecvLockProofs.
 Local Open Scope Z_scope.
 
 (* with order keeping on, the order byte derived from a process id is never 0 (0 = round robin) *)
@@ -93,3 +94,53 @@ Example C13_example :
 Proof.
   split; [exact order_zero_is_round_robin|]. split; [exact order_byte_old_formula_zero|]. split; reflexivity.
 Qed.
+
+(* ---- one handler per receive queue: the premise "one worker per queue" of the FIFO theorems above ----
+   serve() of every pooled link pushes the frame and starts a handler iff it wins queue.Lock();
+   handleRecvQueue pops until the queue is empty, unlocks, looks again and re-locks.  In the small-step
+   model of this protocol (Proto/RecvLock.v; any number of links, any frames per link, one step = one
+   shared access) for EVERY schedule: at most one goroutine is inside the frame loop of a queue; frames
+   are handed to the core in the order they were pushed; when every goroutine has finished, every pushed
+   frame has been handed over and the lock is free; every frame a link received is pushed exactly once. *)
+Module RL := Proto.RecvLock.
+Module RLP := Proto.RecvLockProofs.
+
+Theorem C13_single_handler_per_queue : forall links sched,
+  (RL.count RL.handling (RL.thr (RL.run false sched (RL.init_cfg links))) <= 1)%nat.
+Proof. exact RLP.single_handler. Qed.
+Print Assumptions C13_single_handler_per_queue.
+
+Theorem C13_handover_in_push_order : forall links sched,
+  let c := RL.run false sched (RL.init_cfg links) in
+  RL.pushed (RL.sh c) = RL.delivered (RL.sh c) ++ RL.in_work (RL.thr c) ++ RL.queue (RL.sh c) /\
+  (length (RL.in_work (RL.thr c)) <= 1)%nat.
+Proof. exact RLP.handover_in_push_order. Qed.
+Print Assumptions C13_handover_in_push_order.
+
+Theorem C13_nothing_stranded : forall links sched,
+  let c := RL.run false sched (RL.init_cfg links) in
+  RL.quiescent c = true ->
+  RL.queue (RL.sh c) = [] /\ RL.delivered (RL.sh c) = RL.pushed (RL.sh c) /\ RL.lock (RL.sh c) = false.
+Proof. exact RLP.nothing_stranded. Qed.
+Print Assumptions C13_nothing_stranded.
+
+Theorem C13_every_frame_pushed_once : forall links sched x,
+  let c := RL.run false sched (RL.init_cfg links) in
+  count_occ Nat.eq_dec (RL.pushed (RL.sh c) ++ RLP.pending (RL.thr c)) x = count_occ Nat.eq_dec (concat links) x.
+Proof. exact RLP.all_frames_pushed. Qed.
+Print Assumptions C13_every_frame_pushed_once.
+
+(* Lock() written as "load, then store" (two shared accesses): two handlers on one queue, frames handed
+   over in the wrong order *)
+Theorem C13_two_step_lock_refuted :
+  exists links sched,
+    RL.count RL.handling (RL.thr (RL.run true (firstn 10 sched) (RL.init_cfg links))) = 2%nat /\
+    let c := RL.run true sched (RL.init_cfg links) in
+    RL.pushed (RL.sh c) = [1; 2]%nat /\ RL.delivered (RL.sh c) = [2; 1]%nat.
+Proof. exact RLP.two_step_lock_refuted. Qed.
+Print Assumptions C13_two_step_lock_refuted.
+
+Example C13_recv_example :
+  let c := RL.run false (concat (repeat [0; 1; 2; 3; 4; 5; 6; 7] 30)%nat) (RL.init_cfg [[1; 2]; [3]; [4; 5]]%nat) in
+  RL.quiescent c = true /\ RL.delivered (RL.sh c) = RL.pushed (RL.sh c) /\ length (RL.delivered (RL.sh c)) = 5%nat.
+Proof. exact RLP.recv_example. Qed.
